@@ -266,14 +266,12 @@ func (p *Program) Resolve(lines []Line, opt ResolveOpt, inherited map[string]str
 					excluded[xl.Body()] = true
 				}
 			}
-			// the tool keys lines by text: a duplicate keeps its last position
-			last := map[string]int{}
-			for i, sl := range sub {
-				last[sl.Body()] = i
-			}
+			// exactly the entries of F that occur in no exclude file, in F's order; directive lines (the
+			// block that binds F's own prefixes / suffixes, nested blocks, markers) are not entries: they
+			// are neither excluded nor merged when they occur more than once
 			var kept []Line
-			for i, sl := range sub {
-				if excluded[sl.Body()] || last[sl.Body()] != i {
+			for _, sl := range sub {
+				if sl.K == KEntry && excluded[sl.Body()] {
 					continue
 				}
 				kept = append(kept, sl)
